@@ -1,4 +1,9 @@
 CHECKS = {
+ "C09": {
+  "technique": "Lean 4 proof of the dispatch/glue (all lengths, tails, flag values) + correspondence of three build/run configurations against one Lean model",
+  "text": "Partial by nature: assembly is never the subject of a theorem (no ISA semantics available). Proved: the Go glue around vector kernels (full blocks to the kernel, tail to portable code, size guards) returns the element-wise specification for every length, tail and feature-flag value given the kernel's block contract, and every operation has one specification (C01). Tied: the same op stream is answered by {default asm, ADX disabled, purego} and each is diffed against the same Lean model output for all 23 fields, vector lengths 0..4*block+tail and sub-slice alignments.",
+  "note": "AVX-512 kernels cannot run on this CPU (no avx512vbmi2): not exercised, stated in evidence. ADX switch injected by a build overlay derived from utils/cpu on every run. E2 assembly / FFT / Poseidon2 / SIS kernels are added to the op stream as the corresponding models land.",
+ },
  "C01": {
   "technique": "Lean 4 proof (Montgomery/CIOS invariant by induction over words, exponent bits, list lengths; ZMod) + regenerated constants (decide +kernel) + differential correspondence on raw limbs for 23 fields",
   "text": "37 kernel-checked theorems about the value-level model of a generated field package, for every well-formed parameter set (any word size, any number of words, any odd modulus), every canonical operand, every integer exponent and every vector length: the word-serial CIOS product is exact and canonical, add/sub/neg/double/halve/small multiples, Exp over Z, Inverse (0↦0), Div, BatchInvert (Montgomery trick with zeros skipped = map inverse), Legendre (Euler), Sqrt (exact for q≡3 mod 4; Tonelli-Shanks partial), Cmp/LexicographicallyLargest, vector ops. C01_params_ok re-proves on every run that the constants extracted from the 23 packages satisfy the theorems' hypotheses. The model is tied to the Go code (asm or purego, all 23 fields) by comparing raw Montgomery limbs on the boundary lattice and random operands.",
